@@ -128,7 +128,7 @@ PROPS = {
                        'observed. Does NOT decide: acyclicity in general, label multiset equality.',
     },
     'C05': {
-        'rules': ['R-LINK', 'R-FLAGS', 'R-DISCONT', 'R-FRAME', 'R-ORDERED', 'R-KEEP', 'R-HEADS'],
+        'rules': ['R-LINK', 'R-FLAGS', 'R-DISCONT', 'R-FRAME', 'R-ORDERED', 'R-KEEP', 'R-HEADS', 'DECOR'],
         'filter': {'R-LINK': site('transform.boyd_split', 'transform.raising'),
                    'R-KEEP': site('transform.boyd_split', 'transform.raising'),
                    'R-DISCONT': site('transform.boyd_split', 'trees.terminal_blocks', 'treeanalysis.gap_degree_node'),
@@ -195,8 +195,9 @@ PROPS = {
                        'the pos option selects the POS component. Does NOT decide: replay soundness.',
     },
     'C11': {
-        'rules': ['R-ROOT', 'R-EDIT', 'R-LABELEDIT', 'R-STATE', 'R-FRAME'],
+        'rules': ['R-ROOT', 'R-EDIT', 'R-LABELEDIT', 'R-STATE', 'R-FRAME', 'R-KEEP'],
         'filter': {'R-ROOT': site(*EDITORS),
+                   'R-KEEP': site('trees.delete_terminal'),
                    'R-LABELEDIT': site('transform.ptb_delete_traces'),
                    'R-STATE': rule('R-STATE/G3'),
                    'R-FRAME': site(*EDITORS)},
